@@ -588,7 +588,8 @@ mechanisms:
         headers:
           X-User: "{{ .Subject.ID }}"
 `, filepath.Join(dir, "ca.pem"), ttls.proto.yaml("        "))
-	rules := fmt.Sprintf(c10Rules, "    - authenticator: authn"+ttls.stepConfig("cache_ttl")+"\n    - finalizer: echo")
+	rules := fmt.Sprintf(c10Rules, "    - authenticator: authn"+ttls.stepConfig("cache_ttl")+"\n    - finalizer: echo") +
+		"- id: r2\n  match:\n    routes:\n      - path: /res2/:id\n  execute:\n    - authenticator: authn\n    - finalizer: echo\n"
 	r.Logf("scenario=%s cache=%s cache_ttl=%s key=%s cert=%v chain=%v notAfter=+%ds", kind, cacheKind, ttls, keyName, withCert, withChain, notAfterS)
 	e, err := newEnv(r, cacheKind, mech, rules)
 	if err != nil {
@@ -619,8 +620,12 @@ mechanisms:
 		now := time.Now()
 		// a token that is itself valid at the time of each request: only the key's lifetime is under test
 		tok := simkeys.SignJWT(key, "k1", map[string]any{"iss": "iss1", "sub": "alice", "iat": now.Unix() - 1, "exp": now.Unix() + 3600})
-		res := e.do("GET", "http://heimdall.local/res/1", map[string]string{"Authorization": "Bearer " + tok})
-		r.Logf("req %v", res)
+		path, ttl := "/res/1", ttl
+		if ttls.rule.set && s.Draw(3, "via-second-rule") == 2 {
+			path, ttl = "/res2/1", ttls.proto
+		}
+		res := e.do("GET", "http://heimdall.local"+path, map[string]string{"Authorization": "Bearer " + tok})
+		r.Logf("req %s %v", path, res)
 		contacted := res.calls["idp"] > 0
 		if contacted && res.allowed {
 			lastContact = res.at
@@ -901,7 +906,8 @@ mechanisms:
         client_id: heimdall
         client_secret: secret
 %s`, ttls.proto.yaml("        "))
-	rules := fmt.Sprintf(c10Rules, "    - authenticator: anon\n    - finalizer: cc"+ttls.stepConfig("cache_ttl"))
+	rules := fmt.Sprintf(c10Rules, "    - authenticator: anon\n    - finalizer: cc"+ttls.stepConfig("cache_ttl")) +
+		"- id: r2\n  match:\n    routes:\n      - path: /res2/:id\n  execute:\n    - authenticator: anon\n    - finalizer: cc\n"
 	r.Logf("scenario=%s cache=%s cache_ttl=%s expires_in=%d (present=%v)", kind, cacheKind, ttls, expiresIn, hasExp)
 	e, err := newEnv(r, cacheKind, mech, rules)
 	if err != nil {
@@ -936,8 +942,12 @@ mechanisms:
 	boundaryHit := false
 	for _, at := range times {
 		bubble.At(e.epoch, at)
-		res := e.do("GET", "http://heimdall.local/res/1", nil)
-		r.Logf("req %v -> %s", res, res.header.Get("Authorization"))
+		path, ttl := "/res/1", ttl
+		if ttls.rule.set && s.Draw(3, "via-second-rule") == 2 {
+			path, ttl = "/res2/1", ttls.proto
+		}
+		res := e.do("GET", "http://heimdall.local"+path, nil)
+		r.Logf("req %s %v -> %s", path, res, res.header.Get("Authorization"))
 		if !res.allowed {
 			continue
 		}
